@@ -1,11 +1,11 @@
 #!/bin/bash
 # Coverage-guided tier: ./fuzz/run.sh <Cxx> [seconds]
-# Drives the SAME proptest strategy and check function as the quick tier through libFuzzer
-# (bytes -> proptest pass-through RNG -> structured case). Time box expiring = exit 0.
+# Drives the SAME case types and check functions as the quick tier through libFuzzer: the bytes are
+# decoded by the hand-written decoders of harness/src/fuzzdec.rs. Time box expiring = exit 0.
 set -u
 ROOT="$(cd "$(dirname "${BASH_SOURCE[0]}")/.." && pwd)"
 id="$1"; secs="${2:-${VERIF_FUZZ_SECONDS:-90}}"
-case "$id" in C01|C02|C03|C04|C05|C06|C07|C08|C09|C10|C11|C13|C14|C15|C16|C18|C19) ;; *) exit 0 ;; esac
+case "$id" in C01|C02|C03|C04|C05|C06|C07|C08|C09|C10|C11|C12|C13|C14|C15|C16|C18|C19|C20) ;; *) exit 0 ;; esac
 export VERIF_ROOT="$ROOT" CARGO_NET_OFFLINE=true
 export CARGO_TARGET_DIR="$ROOT/.cache/fuzz-target"
 seed="${VERIF_SEED:-0}"; [ "$seed" = "0" ] && seed=1
@@ -53,11 +53,12 @@ cat > "$ROOT/.cache/fuzz.dict" <<'DICT'
 "a:b"
 DICT
 bin="$CARGO_TARGET_DIR/x86_64-unknown-linux-gnu/release/prop"
+cd "$ROOT/.cache" || exit 2   # libFuzzer writes its per-job logs to the cwd
 VERIF_FUZZ_PROP="$id" "$bin" "$corpus" -artifact_prefix="$ROOT/.cache/fuzz-artifacts/$id-" -max_total_time="$secs" -seed="$seed" -len_control=0 -max_len=2048 -dict="$ROOT/.cache/fuzz.dict" -timeout=60 -rss_limit_mb=4096 -jobs=8 -workers=8 >"$log" 2>&1
 rc=$?
-execs=$(grep -ho "stat::number_of_executed_units: [0-9]*" "$ROOT"/fuzz/fuzz-*.log "$log" 2>/dev/null | awk '{s+=$2} END {print s+0}')
 # per-job logs are written to the cwd by libFuzzer (-jobs); collect them
-cat fuzz-*.log >> "$log" 2>/dev/null; rm -f fuzz-*.log
+rm -f fuzz-[0-9]*.log   # the master process has already copied each job log into $log
+[ -s "$log" ] || { echo "INCONCLUSIVE property=$id fuzz campaign left no log (exit 2)"; exit 2; }
 # record the campaign in the evidence file written by the proptest part of the thorough run
 python3 - "$ROOT/evidence/$id.json" "$secs" "$seed" "$log" <<'PY'
 import json, re, sys
@@ -92,5 +93,6 @@ if grep -q "ERROR: libFuzzer: timeout\|out-of-memory" "$log"; then
 	echo "INCONCLUSIVE property=$id fuzz campaign hit a timeout / memory limit (exit 2); log $log"
 	exit 2
 fi
+grep -q "stat::number_of_executed_units: [1-9]\|DONE" "$log" || { echo "INCONCLUSIVE property=$id fuzz campaign executed nothing (exit 2); log $log"; exit 2; }
 echo "fuzz $id: ${secs}s campaign finished, no failure (log $log)"
 exit 0
